@@ -390,6 +390,10 @@ def joiners_only_join(chk, repo, TF):
                 if isinstance(v, ast.FormattedValue):
                     out += impure(v.value, fn, depth)
             return out
+        if isinstance(e, (ast.ListComp, ast.GeneratorExp)):
+            return impure(e.elt, fn, depth)
+        if isinstance(e, (ast.List, ast.Tuple)):
+            return [x for v in e.elts for x in impure(v, fn, depth)]
         if isinstance(e, ast.Attribute) and e.attr == "__name__" and \
                 isinstance(e.value, ast.Call) and dotted(
                 e.value.func) == "type":
